@@ -124,7 +124,7 @@ func simEnv(b *Built, racelog string, procs int) []string {
 	for _, kv := range os.Environ() {
 		k := kv[:strings.IndexByte(kv+"=", '=')]
 		switch k {
-		case "GOMAXPROCS", "GORACE", "GODEBUG", "GOTRACEBACK", "TZ", "VSIM_PROCS", "VSIM_HSEED":
+		case "GOMAXPROCS", "GORACE", "GODEBUG", "GOTRACEBACK", "TZ", "VSIM_PROCS", "VSIM_HSEED", "VSIM_MODE":
 			continue
 		}
 		env = append(env, kv)
@@ -249,6 +249,9 @@ func (sp *simProc) simBatch(in, out string, keep, par bool, reps int) (*BatchRes
 		// calendar days have no 00:00 there)
 		zones := []string{"Pacific/Kiritimati", "America/Santiago", "America/Los_Angeles", "America/Sao_Paulo", "Asia/Kathmandu", "America/Havana", "UTC", "Atlantic/Azores", "Pacific/Pago_Pago", "America/Asuncion", "Europe/Berlin"}
 		env = append(env, "TZ="+zones[((hdr.Batch%len(zones))+len(zones))%len(zones)])
+		// goroutines the library starts outside a run (package initialisation)
+		// become parked tasks in this process
+		env = append(env, "VSIM_MODE=run")
 		// seeds handed out by the maphash seam: fixed per batch number
 		env = append(env, fmt.Sprintf("VSIM_HSEED=%d", hdr.Batch+1))
 	}
